@@ -187,8 +187,37 @@ theorem parseLink_sim {s : Bool} {cfg : Cfg} {skip : IState → Except Panic ISt
       · exact parseLinkRef_sim hs rel1 h
     · rw [e2]; exact hs'
 
+/-! ### where the label ends (single run) -/
+
+theorem parseLinkRef_labelEnd {cfg : Cfg} {skip : IState → Except Panic IState} {fuel : Nat} {st : IState}
+    {ls le : Nat} {res : LinkRes} {st' : IState}
+    (h : parseLinkRef cfg skip fuel st ls le = .ok (some res, st')) : res.labelEnd = le := by
+  unfold parseLinkRef at h
+  simp only [] at h
+  repeat' split at h
+  all_goals try (simp at h; done)
+  all_goals (simp only [Except.ok.injEq, Prod.mk.injEq, Option.some.injEq] at h; obtain ⟨rfl, _⟩ := h; rfl)
+
+theorem parseLink_labelEnd {cfg : Cfg} {skip : IState → Except Panic IState} (hq : CalmFn skip)
+    {fuel : Nat} {st : IState} {pos : Nat} {en : Bool} {res : LinkRes} {st' : IState}
+    (h : parseLink cfg skip fuel st pos en = .ok (some res, st')) : res.labelEnd ≤ st.posMax := by
+  unfold parseLink at h
+  split at h
+  · simp at h
+  · simp at h
+  · next le st1 hl =>
+    obtain ⟨r, hr⟩ := parseLinkLabel_end hq hl
+    obtain ⟨_, _, _, _, hb⟩ := (C05.slice_ok_iff _ _ _ _).mp hr
+    simp only [] at h
+    split at h
+    · simp at h
+    · simp only [Except.ok.injEq, Prod.mk.injEq, Option.some.injEq] at h
+      obtain ⟨rfl, _⟩ := h
+      simp only []; omega
+    · rw [parseLinkRef_labelEnd h]; omega
+
 theorem linkRule_sim {s : Bool} {cfg : Cfg} {skip tok : IState → Except Panic IState} (hs : SimFn K s skip)
-    (ht : SimFn K s tok) {fuel : Nat} {mk : List Nat → Option (List Char) → Val} {en : Bool} {offset : Nat}
+    (ht : SimFn K s tok) (hq : CalmFn skip) {fuel : Nat} {mk : List Nat → Option (List Char) → Val} {en : Bool} {offset : Nat}
     (hmk : ∀ u t r₁ r₂, Span K r₁ r₂ → Extra K (mk u t) r₁ r₂)
     {a b : IState} {silent : Bool} {r : Option Nat × IState} (hst : CharSolid a.src a.pos)
     (rel : IRel K s a b)
@@ -204,6 +233,8 @@ theorem linkRule_sim {s : Bool} {cfg : Cfg} {skip tok : IState → Except Panic 
     · simp only [] at ho rel1; subst ho; rw [e2]; exact ⟨rfl, rel1⟩
     · rw [e2]; exact hs'
   · next res a1 hpl =>
+    have hend : res.endPos ≤ byteLen K.c := Nat.le_trans (parseLink_end hq hpl).1 rel.ks.2.2.2
+    have hlab : res.labelEnd ≤ byteLen K.c := Nat.le_trans (parseLink_labelEnd hq hpl) rel.ks.2.2.2
     rcases (parseLink_sim hs rel hpl).cases with ⟨⟨o₂, b1⟩, e2, ho, rel1⟩ | ⟨hs', e, e2⟩
     · simp only [] at ho rel1; subst ho; rw [e2]
       simp only [rel1.pos, rel1.posMax, rel1.level, rel1.linkLevel, rel1.bottoms] at h ⊢
@@ -220,7 +251,8 @@ theorem linkRule_sim {s : Bool} {cfg : Cfg} {skip tok : IState → Except Panic 
                       pos := res.labelStart, posMax := res.labelEnd }
             { b1 with children := [], bottoms := [], linkLevel := a1.linkLevel + 1, level := a1.level + 1,
                       pos := res.labelStart, posMax := res.labelEnd } := by
-          exact IRel.of_eqs rel1.src rfl rfl rfl rfl rel1.cache rel1.backticks rfl rel1.map (by simp) rel1.ks
+          exact IRel.of_eqs rel1.src rfl rfl rfl rfl rel1.cache rel1.backticks rfl rel1.map (by simp)
+            ⟨rel1.ks.1, rel1.ks.2.1, rel1.ks.2.2.1, hlab⟩
         split at h
         · simp at h
         · next a3 htok =>
@@ -242,9 +274,14 @@ theorem linkRule_sim {s : Bool} {cfg : Cfg} {skip tok : IState → Except Panic 
                   · next hu =>
                     rw [if_neg hu]
                     simp only [Except.ok.injEq] at h; subst h
-                    have hst3 : CharSolid a3.src a.pos := by rw [rel3.ks.1, ← rel.ks.1]; exact hst
                     exact ⟨rfl, IRel.of_eqs rfl rfl rfl rfl rfl rfl rfl rfl hm3 (rel1.ch.snoc
-                      (NRel.mk' hr.1 (fun _ => hmk _ _ _ _ (span_of_KS rel3.ks hr.2 hst3)) hc3)) rel3.ks⟩
+                      (NRel.mk' hr.1 (fun _ => hmk _ _ _ _ (span_of_GM
+                        (by have := hr.2
+                            have k3 := rel3.ks.2.2.1
+                            simp only [] at k3
+                            rw [rel3.ks.2.1, k3] at this; exact this)
+                        (by rw [← rel.ks.1]; exact hst) hend)) hc3))
+                      ⟨rel3.ks.1, rel3.ks.2.1, rel3.ks.2.2.1, rel1.ks.2.2.2⟩⟩
                 · rw [e4]; exact hs'
           · rw [e3]; exact hs'
     · rw [e2]; exact hs'
@@ -252,7 +289,7 @@ theorem linkRule_sim {s : Bool} {cfg : Cfg} {skip tok : IState → Except Panic 
 /-! ## the chain, both loop bodies, the induction on fuel -/
 
 theorem ruleLink_sim {s : Bool} {cfg : Cfg} {skip tok : IState → Except Panic IState} (hs : SimFn K s skip)
-    (ht : SimFn K s tok) {fuel : Nat} {a b : IState} {silent : Bool} {r : Option Nat × IState}
+    (ht : SimFn K s tok) (hq : CalmFn skip) {fuel : Nat} {a b : IState} {silent : Bool} {r : Option Nat × IState}
     (rel : IRel K s a b) (h : ruleLink cfg skip tok fuel a silent = .ok r) :
     Sim s (ORel K s) r (ruleLink cfg skip tok fuel b silent) := by
   unfold ruleLink at h ⊢
@@ -266,12 +303,12 @@ theorem ruleLink_sim {s : Bool} {cfg : Cfg} {skip tok : IState → Except Panic 
     · next hc =>
       rw [if_neg hc]
       have hst : CharSolid a.src a.pos :=
-        charSolid_of_window (liftR_ok.mp hw) (by have e : c = '[' := by simpa using hc
-                                                 rw [e]; decide)
-      exact linkRule_sim (mk := Val.link) hs ht (fun _ _ _ _ h => h) hst rel h
+        (charSolid_of_window (liftR_ok.mp hw) (by have e : c = '[' := by simpa using hc
+                                                  rw [e]; decide)).1
+      exact linkRule_sim (mk := Val.link) hs ht hq (fun _ _ _ _ h => h) hst rel h
 
 theorem ruleImage_sim {s : Bool} {cfg : Cfg} {skip tok : IState → Except Panic IState} (hs : SimFn K s skip)
-    (ht : SimFn K s tok) {fuel : Nat} {a b : IState} {silent : Bool} {r : Option Nat × IState}
+    (ht : SimFn K s tok) (hq : CalmFn skip) {fuel : Nat} {a b : IState} {silent : Bool} {r : Option Nat × IState}
     (rel : IRel K s a b) (h : ruleImage cfg skip tok fuel a silent = .ok r) :
     Sim s (ORel K s) r (ruleImage cfg skip tok fuel b silent) := by
   unfold ruleImage at h ⊢
@@ -279,12 +316,13 @@ theorem ruleImage_sim {s : Bool} {cfg : Cfg} {skip tok : IState → Except Panic
   split at h
   · simp at h
   · next w hw =>
-    exact linkRule_sim (mk := Val.image) hs ht (fun _ _ _ _ h => h) (charSolid_of_window (liftR_ok.mp hw) (by decide)) rel h
+    exact linkRule_sim (mk := Val.image) hs ht hq (fun _ _ _ _ h => h)
+      (charSolid_of_window (liftR_ok.mp hw) (by decide)).1 rel h
   · simp only [Except.ok.injEq] at h; subst h; exact ⟨rfl, rel⟩
 
 theorem runRule_sim {s : Bool} {cfg : Cfg} {skip tok : IState → Except Panic IState} (hs : SimFn K s skip)
-    (ht : SimFn K s tok) {fuel : Nat} {id : RuleId}
-    (hid : ∀ mk csw, id = .emph mk csw → mk.utf8Size = 1 ∧ mk ≠ '\n') {a b : IState} {silent : Bool}
+    (ht : SimFn K s tok) (hq : CalmFn skip) {fuel : Nat} {id : RuleId}
+    (hid : ∀ mk csw, id = .emph mk csw → mk.utf8Size = 1 ∧ mk ≠ '\n' ∧ mk ≠ ' ') {a b : IState} {silent : Bool}
     {r : Option Nat × IState} (rel : IRel K s a b) (h : runRule cfg skip tok fuel id a silent = .ok r) :
     Sim s (ORel K s) r (runRule cfg skip tok fuel id b silent) := by
   unfold runRule at h ⊢
@@ -293,9 +331,9 @@ theorem runRule_sim {s : Bool} {cfg : Cfg} {skip tok : IState → Except Panic I
   | newline => exact liftR_sim (fun _ h' => ruleNewline_sim rel h') h
   | escape => exact liftR_sim (fun _ h' => ruleEscape_sim rel h') h
   | backticks => exact liftR_sim (fun _ h' => ruleBackticks_sim rel h') h
-  | emph mk csw => exact liftR_sim (fun _ h' => ruleEmph_sim (hid _ _ rfl).1 (hid _ _ rfl).2 rel h') h
-  | link => exact ruleLink_sim hs ht rel h
-  | image => exact ruleImage_sim hs ht rel h
+  | emph mk csw => exact liftR_sim (fun _ h' => ruleEmph_sim (hid _ _ rfl).1 (hid _ _ rfl).2.1 (hid _ _ rfl).2.2 rel h') h
+  | link => exact ruleLink_sim hs ht hq rel h
+  | image => exact ruleImage_sim hs ht hq rel h
   | linkEnd => simp only [Except.ok.injEq] at h; subst h; exact ⟨rfl, rel⟩
   | autolink => exact liftR_sim (fun _ h' => ruleAutolink_sim rel h') h
   | entity => exact liftR_sim (fun _ h' => ruleEntity_sim rel h') h
@@ -353,7 +391,7 @@ theorem firstChar_rel {s : Bool} {a b : IState} (rel : IRel K s a b) : firstChar
   unfold firstChar; rw [rel.window]
 
 theorem tokStep_sim {s : Bool} {cfg : Cfg} {skip tok : IState → Except Panic IState} (hs : SimFn K s skip)
-    (ht : SimFn K s tok) (hmk : ∀ mk csw, RuleId.emph mk csw ∈ cfg.chain → mk.utf8Size = 1 ∧ mk ≠ '\n') {fuel : Nat} {a b a' : IState} (rel : IRel K s a b)
+    (ht : SimFn K s tok) (hq : CalmFn skip) (hmk : ∀ mk csw, RuleId.emph mk csw ∈ cfg.chain → mk.utf8Size = 1 ∧ mk ≠ '\n' ∧ mk ≠ ' ') {fuel : Nat} {a b a' : IState} (rel : IRel K s a b)
     (h : tokStep cfg skip tok fuel a = .ok a') : Sim s (IRel K s) a' (tokStep cfg skip tok fuel b) := by
   unfold tokStep at h ⊢
   simp only [rel.level] at h ⊢
@@ -366,7 +404,7 @@ theorem tokStep_sim {s : Bool} {cfg : Cfg} {skip tok : IState → Except Panic I
     · next hl =>
       rw [if_pos hl]
       exact firstRule_sim (run := fun id s => runRule cfg skip tok fuel id s false) cfg.chain
-        (fun id hid a b r rel h => runRule_sim hs ht (fun mk csw e => hmk mk csw (e ▸ hid)) rel h) _ _ _ rel hr
+        (fun id hid a b r rel h => runRule_sim hs ht hq (fun mk csw e => hmk mk csw (e ▸ hid)) rel h) _ _ _ rel hr
     · next hl =>
       rw [if_neg hl]
       simp only [Except.ok.injEq] at hr; subst hr; exact ⟨rfl, rel⟩
@@ -398,14 +436,14 @@ theorem tokStep_sim {s : Bool} {cfg : Cfg} {skip tok : IState → Except Panic I
     · rw [e2]; exact hs'
 
 theorem skipStep_sim {s : Bool} {cfg : Cfg} {skip tok : IState → Except Panic IState} (hs : SimFn K s skip)
-    (ht : SimFn K s tok) (hmk : ∀ mk csw, RuleId.emph mk csw ∈ cfg.chain → mk.utf8Size = 1 ∧ mk ≠ '\n') {fuel : Nat} {a b a' : IState} (rel : IRel K s a b)
+    (ht : SimFn K s tok) (hq : CalmFn skip) (hmk : ∀ mk csw, RuleId.emph mk csw ∈ cfg.chain → mk.utf8Size = 1 ∧ mk ≠ '\n' ∧ mk ≠ ' ') {fuel : Nat} {a b a' : IState} (rel : IRel K s a b)
     (h : skipStep cfg skip tok fuel a = .ok a') : Sim s (IRel K s) a' (skipStep cfg skip tok fuel b) := by
   unfold skipStep at h ⊢
   simp only [rel.pos] at h ⊢
   have hok := fun r => firstRule_sim (K := K) (s := s)
     (run := fun id s => silentBumped (runRule cfg skip tok fuel id) s) cfg.chain
     (fun id hid a b r rel h => silentBumped_sim
-      (fun a b r rel h => runRule_sim hs ht (fun mk csw e => hmk mk csw (e ▸ hid)) rel h) rel h)
+      (fun a b r rel h => runRule_sim hs ht hq (fun mk csw e => hmk mk csw (e ▸ hid)) rel h) rel h)
     a b r rel
   split at h
   · simp at h
@@ -429,7 +467,7 @@ theorem skipStep_sim {s : Bool} {cfg : Cfg} {skip tok : IState → Except Panic 
     · rw [e2]; exact hs'
 
 /-- **the lock-step simulation through the whole tokenizer**, by induction on the fuel -/
-theorem sim_induction (s : Bool) (cfg : Cfg) (hmk : ∀ mk csw, RuleId.emph mk csw ∈ cfg.chain → mk.utf8Size = 1 ∧ mk ≠ '\n') : ∀ fuel : Nat,
+theorem sim_induction (s : Bool) (cfg : Cfg) (hmk : ∀ mk csw, RuleId.emph mk csw ∈ cfg.chain → mk.utf8Size = 1 ∧ mk ≠ '\n' ∧ mk ≠ ' ') : ∀ fuel : Nat,
     SimFn K s (fun st => skipToken cfg fuel st) ∧
     (∀ (e : Nat) (a b a' : IState), IRel K s a b → tokLoop cfg fuel e a = .ok a' →
       Sim s (IRel K s) a' (tokLoop cfg fuel e b)) := by
@@ -462,7 +500,7 @@ theorem sim_induction (s : Bool) (cfg : Cfg) (hmk : ∀ mk csw, RuleId.emph mk c
           rel.bottoms rel.map rel.ch rel.ks
       · next hx =>
         split at h
-        · next hl => rw [if_pos hl]; exact skipStep_sim ihS ht hmk rel h
+        · next hl => rw [if_pos hl]; exact skipStep_sim ihS ht (skipToken_calm cfg f) hmk rel h
         · next hl =>
           rw [if_neg hl]
           simp only [Except.ok.injEq] at h; subst h
@@ -478,7 +516,7 @@ theorem sim_induction (s : Bool) (cfg : Cfg) (hmk : ∀ mk csw, RuleId.emph mk c
         split at h
         · simp at h
         · next a1 hstep =>
-          rcases (tokStep_sim ihS ht hmk rel hstep).cases with ⟨b1, e2, rel1⟩ | ⟨hs', e', e2⟩
+          rcases (tokStep_sim ihS ht (skipToken_calm cfg f) hmk rel hstep).cases with ⟨b1, e2, rel1⟩ | ⟨hs', e', e2⟩
           · rw [e2]; exact ihT _ _ _ _ rel1 h
           · rw [e2]; exact hs'
       · next hp => rw [if_neg hp]; simp only [Except.ok.injEq] at h; subst h; exact rel
@@ -486,12 +524,12 @@ theorem sim_induction (s : Bool) (cfg : Cfg) (hmk : ∀ mk csw, RuleId.emph mk c
 /-! ## `md.inline.parse` -/
 
 theorem parseInline_sim (K : Ctx) (s : Bool) (cfg : Cfg)
-    (hmk : ∀ mk csw, RuleId.emph mk csw ∈ cfg.chain → mk.utf8Size = 1 ∧ mk ≠ '\n')
+    (hmk : ∀ mk csw, RuleId.emph mk csw ∈ cfg.chain → mk.utf8Size = 1 ∧ mk ≠ '\n' ∧ mk ≠ ' ')
     (hm : MRel s K.m₁ K.m₂) {ns₁ : List Node} (h : parseInline cfg K.c K.m₁ = .ok ns₁) :
     Sim s (LRel K s) ns₁ (parseInline cfg K.c K.m₂) := by
   unfold parseInline tokenize at h ⊢
   have rel0 : IRel K s (IState.init K.c K.m₁) (IState.init K.c K.m₂) :=
-    IRel.of_eqs rfl rfl rfl rfl rfl rfl rfl rfl hm (by simp [IState.init]) ⟨rfl, rfl, rfl⟩
+    IRel.of_eqs rfl rfl rfl rfl rfl rfl rfl rfl hm (by simp [IState.init]) ⟨rfl, rfl, rfl, Inline.trimSrc_le K.c⟩
   split at h
   · simp at h
   · next a' ha =>
